@@ -112,6 +112,21 @@ Definition load_model (validate : bool) (lo hi : N) (p : pstore) : option (list 
   | Some acc => load_mans validate lo hi (snd p) [] acc [0]
   end.
 
+(* LoadFromProto on a map that may already hold definitions (acc, ids): ESTA block, then manufacturers *)
+Definition load_proto (validate : bool) (lo hi : N) (p : pstore) (acc : list lentry) (ids : list N)
+  : option (list lentry * list N) :=
+  match get_pid_list validate true lo hi 0 (fst p) [] [] acc with
+  | None => None
+  | Some acc' => load_mans validate lo hi (snd p) [] acc' (if existsb (N.eqb 0) ids then ids else ids ++ [0])
+  end.
+(* BuildStore: "Load the overrides first so they get first dibs on each PID", then the main data;
+   a (manufacturer, value) that is already present is skipped by GetPidList *)
+Definition load_model_ovr (validate : bool) (lo hi : N) (ovr main : pstore) : option (list lentry * list N) :=
+  match load_proto validate lo hi ovr [] [] with
+  | None => None
+  | Some (acc, ids) => load_proto validate lo hi main acc ids
+  end.
+
 (* the two tables of a loaded store, as the exporter prints them *)
 Definition pids_of (l : list lentry) : list pid_entry :=
   map (fun e => (fst (fst (fst e)), snd (fst (fst e)), snd (fst e))) l.
